@@ -144,6 +144,42 @@ def gen_C03(rng, ci, tier):
         else:
             s.add("nth", d, ln + rng.choice([0, 1]))
         out.append(s.ops)
+    # the same accessors with the OWNED sequence as the method receiver: freshly built, copied out of a
+    # window, truncated (stale symbols stay behind the end in the last word) and cleared
+    for _ in range(scale(tier, 80, 1600)):
+        s = Script(ci)
+        n = pick_len(rng, ci, scale(tier, 150, 300))
+        codes = rand_codes(rng, ci, n)
+        r = s.new_from_codes(rng, codes, how=rng.choice(["parse", "collect"]))
+        kind = rng.choice(["fresh", "window", "truncated", "truncated", "cleared"])
+        o, cur = r, list(codes)
+        if kind == "window" and n:
+            a = rng.randint(0, n); b = rng.randint(a, n)
+            s.add("toowned", window_sd(r, a, b, rng)); s.regs.append(codes[a:b])
+            o, cur = len(s.regs) - 1, codes[a:b]
+        elif kind == "truncated":
+            m = rng.randint(0, n)
+            s.add("truncate", r, m); s.regs[r] = codes[:m]; cur = codes[:m]
+        elif kind == "cleared":
+            s.add("clear", r); s.regs[r] = []; cur = []
+        ln = len(cur)
+        s.add("len", SD(o))
+        s.add("codes", SD(o))
+        idx = {0, ln, ln + 1, ln + ci.per_word - 1, ln + ci.per_word, rng.randint(ln, ln + 2 * ci.per_word)}
+        if ln:
+            idx.update({ln - 1, rng.randrange(ln)})
+        for i in sorted(idx):
+            s.add("get", SD(o), i)
+        if ln:
+            s.add("nth", SD(o), rng.randrange(ln))
+            s.add("nth", SD(o), ln - 1)
+        s.add("reviter", SD(o))
+        if ln <= 80:
+            s.add("windows", SD(o), rng.randint(1, ln + 1))
+            s.add("chunks", SD(o), rng.randint(1, ln + 1))
+        if rng.random() < 0.4:
+            s.add("nth", SD(o), ln + rng.choice([0, 1, ci.per_word - 1]))
+        out.append(s.ops)
     return out
 
 
